@@ -1,9 +1,10 @@
 /* C10: eager evaluation returns exactly the lazy view (shape and every element), for the three result resolvers:
- *   RES=0  array::eval(view) with its default resolver (eval_t)
+ *   RES=0  array::eval(view) with its default resolver template argument (eval_t)
  *   RES=1  eval(view, None, None, RowMajorResolver)     - what every array::fn front end passes
  *   RES=2  eval(view, None, None, ColumnMajorResolver)
  * The oracle is differential (eager vs lazy, computed by the same kernel call on the same symbolic inputs); the harness
- * additionally pins the lazy shape to the NumPy shape so that the symbolic result index ranges over the whole result. */
+ * additionally pins the lazy shape to the NumPy shape (harnesses/C10_dom.h) so that the symbolic result index ranges over
+ * the whole result. h_out_*: the result is a caller-supplied array whose prior content is symbolic. h_cl_*: composition law. */
 #include "harness.h"
 #ifndef RES
 #define RES 1
@@ -18,13 +19,8 @@
 #include "C10_eval_col.h"
 #define KN(n) n##_col
 #endif
-#ifndef MAXE
-#define MAXE 3
-#endif
+#include "C10_dom.h"
 #define CELLS 16
-#define LOCALS u64 shape[2], idx[4] = {0}, ls[4] = {0}, es[4] = {0}, ld = 0, ed = 0, ex[4] = {0}; u32 data[CELLS], p[8] = {0}, lv = 0, ev = 0; \
-  in_shape(shape, 2); in_data(data, MAXE*MAXE); u64 n0 = shape[0], n1 = shape[1], numel = n0 * n1; (void)numel;
-#define ARGS shape, data, p, idx, nd, ls, &ld, &lv, es, &ed, &ev
 /* shape: symbolic 1..MAXE per extent, or a per-query constant (SH0,SH1) when the symbolic-shape query does not return */
 #ifdef SH0
 static void in_shape(u64* s, int n){ (void)n; s[0] = in_u64(SH0, SH0); s[1] = in_u64(SH1, SH1); }
@@ -32,77 +28,41 @@ static void in_shape(u64* s, int n){ (void)n; s[0] = in_u64(SH0, SH0); s[1] = in
 static void in_shape(u64* s, int n){ for (int i = 0; i < n; i++) s[i] = in_u64(1, MAXE); }
 #endif
 static void in_data(u32* d, int n){ for (int i = 0; i < n; i++) d[i] = in_any32(); }
-/* index of length nd inside ex (entries beyond nd are 0) */
-static void in_index(u64* idx, const u64* ex, u64 nd, u64 maxidx){ for (u64 i = 0; i < 4; i++){ idx[i] = i < nd ? in_u64(0, maxidx) : 0; ASSUME(i < nd ? idx[i] < ex[i] : 1); } }
-static u64 norm(i32 v, u64 n){ return v < 0 ? (u64)(v + (i32)n) : (u64)v; }
+#define LOCALS u64 shape[2], idx[4] = {0}, ls[4] = {0}, es[4] = {0}, ld = 0, ed = 0, ex[4] = {0}, maxidx = 0; u32 data[CELLS], p[16] = {0}, lv = 0, ev = 0; \
+  in_shape(shape, 2); in_data(data, MAXE*MAXE); u64 n0 = shape[0], n1 = shape[1];
+#define ARGS shape, data, p, idx, nd, ls, &ld, &lv, es, &ed, &ev
+static u64 numel_of(const u64* ex, u64 nd){ u64 n = 1; for (u64 i = 0; i < 4; i++) if (i < nd) n *= ex[i]; return n; }
+/* open finding: eval's DEFAULT resolver sizes the result from the operand's capacity; results larger than it come back unwritten */
+#ifdef KF_C10_EVAL_DEFAULT_RESOLVER_CAPACITY
+#define KF_GUARD ASSUME(!(numel_of(ex, nd) > CAP))
+#else
+#define KF_GUARD
+#endif
 static void check(int r, const u64* ex, u64 nd, const u64* ls, u64 ld, u32 lv, const u64* es, u64 ed, u32 ev){
-  ASSERT(r == 1, "lazy view and eager result both exist and the index is inside both");
+  ASSERT(r == 1, "both sides exist and the index is inside both");
   ASSERT(ld == nd, "lazy dim == NumPy dim");
   ASSERT(ed == ld, "dim(eval(v)) == dim(v)");
   for (u64 i = 0; i < 4; i++) if (i < nd){ ASSERT(ls[i] == ex[i], "lazy shape == NumPy shape"); ASSERT(es[i] == ls[i], "shape(eval(v)) == shape(v)"); }
   ASSERT(ev == lv, "eval(v)(i) == v(i)");
   OBS(r); OBS(lv); OBS(ev);
 }
-static void in_perm2(u32* p){ i32 a = in_i32(0, 1); p[0] = (u32)a; p[1] = (u32)(1 - a); }
-
-/* ---- depth 1 ---- */
+#define EV(NAME)  void h_ev_##NAME(void){ LOCALS; u64 nd = dom_##NAME(p, ex, n0, n1, &maxidx); KF_GUARD; dom_index(idx, ex, nd, maxidx); \
+  int r = KN(k_ev_##NAME)(ARGS); check(r, ex, nd, ls, ld, lv, es, ed, ev); REACHED(); }
+#define FRONT(NAME) void h_front_##NAME(void){ LOCALS; u64 nd = dom_##NAME(p, ex, n0, n1, &maxidx); dom_index(idx, ex, nd, maxidx); \
+  int r = KN(k_front_##NAME)(ARGS); check(r, ex, nd, ls, ld, lv, es, ed, ev); REACHED(); }
+#define OUTP(NAME) void h_out_##NAME(void){ LOCALS; u32 pre[CELLS]; in_data(pre, MAXE*MAXE); u64 nd = dom_##NAME(p, ex, n0, n1, &maxidx); dom_index(idx, ex, nd, maxidx); \
+  int r = KN(k_out_##NAME)(ARGS, pre); check(r, ex, nd, ls, ld, lv, es, ed, ev); REACHED(); }
+#define CL(NAME)  void h_cl_##NAME(void){ LOCALS; u64 nd = dom_##NAME(p, ex, n0, n1, &maxidx); dom_index(idx, ex, nd, maxidx); \
+  int r = KN(k_cl_##NAME)(ARGS); check(r, ex, nd, ls, ld, lv, es, ed, ev); REACHED(); }
 #if RES != 0
-void h_front_transpose(void){ LOCALS; u64 nd = 2; in_perm2(p);
-  ex[0] = shape[p[0]]; ex[1] = shape[p[1]]; in_index(idx, ex, nd, MAXE - 1);
-  int r = KN(k_front_transpose)(ARGS); check(r, ex, nd, ls, ld, lv, es, ed, ev); REACHED(); }
+FRONT(transpose) FRONT(flip)
 #endif
-void h_ev_transpose(void){ LOCALS; u64 nd = 2; in_perm2(p);
-  ex[0] = shape[p[0]]; ex[1] = shape[p[1]]; in_index(idx, ex, nd, MAXE - 1);
-  int r = KN(k_ev_transpose)(ARGS); check(r, ex, nd, ls, ld, lv, es, ed, ev); REACHED(); }
-void h_ev_transpose_none(void){ LOCALS; u64 nd = 2;
-  ex[0] = n1; ex[1] = n0; in_index(idx, ex, nd, MAXE - 1);
-  int r = KN(k_ev_transpose_none)(ARGS); check(r, ex, nd, ls, ld, lv, es, ed, ev); REACHED(); }
-/* valid reshape target of nd entries (one -1 allowed): returns the expected shape in ex */
-static u64 in_target(u32* q, u64* ex, u64 numel){
-  u64 nd = in_u64(1, 4); int nneg = 0; u64 prod = 1;
-  for (int i = 0; i < 4; i++){ i32 v = in_i32(-1, MAXE*MAXE); ASSUME(v != 0); q[i] = (u32)v; if ((u64)i < nd){ if (v == -1) nneg++; else prod *= (u64)v; } }
-  ASSUME((nneg == 0 && prod == numel) || (nneg == 1 && numel % prod == 0));
-  for (int i = 0; i < 4; i++) ex[i] = ((i32)q[i] == -1) ? numel / prod : (u64)(i32)q[i];
-  return nd;
-}
-void h_ev_reshape(void){ LOCALS; u64 nd = in_target(p + 1, ex, numel); p[0] = (u32)nd;
-  in_index(idx, ex, nd, MAXE*MAXE - 1);
-  int r = KN(k_ev_reshape)(ARGS); check(r, ex, nd, ls, ld, lv, es, ed, ev); REACHED(); }
-void h_ev_flatten(void){ LOCALS; u64 nd = 1;
-  ex[0] = numel; in_index(idx, ex, nd, MAXE*MAXE - 1);
-  int r = KN(k_ev_flatten)(ARGS); check(r, ex, nd, ls, ld, lv, es, ed, ev); REACHED(); }
-void h_ev_flip(void){ LOCALS; u64 nd = 2; p[0] = (u32)in_i32(-2, 1);
-  ex[0] = n0; ex[1] = n1; in_index(idx, ex, nd, MAXE - 1);
-  int r = KN(k_ev_flip)(ARGS); check(r, ex, nd, ls, ld, lv, es, ed, ev); REACHED(); }
-/* a[b0:e0:s0, b1:e1] with non-empty selections (empty selections: open finding of C05, excluded here because only the index domain depends on it) */
-static void in_slice(u32* q, u64* ex, u64 n0, u64 n1){
-  i32 b0 = in_i32(0, MAXE - 1), e0 = in_i32(1, MAXE), s0 = in_i32(1, 2), b1 = in_i32(0, MAXE - 1), e1 = in_i32(1, MAXE);
-  ASSUME(b0 < e0 && (u64)e0 <= n0 && b1 < e1 && (u64)e1 <= n1);
-  q[0] = (u32)b0; q[1] = (u32)e0; q[2] = (u32)s0; q[3] = (u32)b1; q[4] = (u32)e1;
-  ex[0] = (u64)((e0 - b0 + s0 - 1) / s0); ex[1] = (u64)(e1 - b1);
-}
-void h_ev_slice(void){ LOCALS; u64 nd = 2; in_slice(p, ex, n0, n1); in_index(idx, ex, nd, MAXE - 1);
-  int r = KN(k_ev_slice)(ARGS); check(r, ex, nd, ls, ld, lv, es, ed, ev); REACHED(); }
-void h_ev_tile(void){ LOCALS; u64 nd = 2; p[0] = in_u32(1, 2); p[1] = in_u32(1, 2);
-  ex[0] = n0 * p[0]; ex[1] = n1 * p[1];
-#ifdef KF_C10_EVAL_DEFAULT_RESOLVER_CAPACITY
-  ASSUME(!(ex[0] * ex[1] > CELLS));   /* result larger than the operand's buffer capacity */
+EV(transpose) EV(transpose_none) EV(reshape_b) EV(reshape) EV(flatten) EV(flip) EV(slice) EV(tile) EV(pad) EV(invert) EV(add_scalar) EV(sum)
+EV(flip_transpose) EV(reshape_flip) EV(sum_transpose) EV(add_scalar_transpose) EV(transpose_add_scalar) EV(flatten_pad) EV(invert_flip)
+EV(slice_transpose) EV(transpose_slice) EV(sum_add_scalar)
+EV(invert_flip_reshape) EV(transpose_flip_slice) EV(reshape_flip_pad)
+OUTP(transpose) OUTP(flip) OUTP(invert) OUTP(flip_transpose)
+#if RES != 0
+OUTP(sum)
 #endif
-  in_index(idx, ex, nd, 2*MAXE - 1);
-  int r = KN(k_ev_tile)(ARGS); check(r, ex, nd, ls, ld, lv, es, ed, ev); REACHED(); }
-void h_ev_pad(void){ LOCALS; u64 nd = 2; for (int i = 0; i < 4; i++) p[i] = in_u32(0, 1); p[4] = in_any32();
-  ex[0] = n0 + p[0] + p[2]; ex[1] = n1 + p[1] + p[3];
-#ifdef KF_C10_EVAL_DEFAULT_RESOLVER_CAPACITY
-  ASSUME(!(ex[0] * ex[1] > CELLS));
-#endif
-  in_index(idx, ex, nd, MAXE + 1);
-  int r = KN(k_ev_pad)(ARGS); check(r, ex, nd, ls, ld, lv, es, ed, ev); REACHED(); }
-void h_ev_square(void){ LOCALS; u64 nd = 2;
-  ex[0] = n0; ex[1] = n1; in_index(idx, ex, nd, MAXE - 1);
-  int r = KN(k_ev_square)(ARGS); check(r, ex, nd, ls, ld, lv, es, ed, ev); REACHED(); }
-void h_ev_add_scalar(void){ LOCALS; u64 nd = 2; p[0] = in_any32();
-  ex[0] = n0; ex[1] = n1; in_index(idx, ex, nd, MAXE - 1);
-  int r = KN(k_ev_add_scalar)(ARGS); check(r, ex, nd, ls, ld, lv, es, ed, ev); REACHED(); }
-void h_ev_sum(void){ LOCALS; u64 nd = 1; i32 ax = in_i32(-2, 1); p[0] = (u32)ax;
-  ex[0] = norm(ax, 2) == 0 ? n1 : n0; in_index(idx, ex, nd, MAXE - 1);
-  int r = KN(k_ev_sum)(ARGS); check(r, ex, nd, ls, ld, lv, es, ed, ev); REACHED(); }
+CL(flip_transpose) CL(invert_flip) CL(slice_transpose) CL(sum_transpose) CL(transpose_add_scalar)
